@@ -254,7 +254,31 @@ func FromRat(r *big.Rat) Decimal {
 
 	denom := r.Denom()
 
-	return FromInt(num).Quo(FromInt(denom))
+	// Converting the numerator and denominator separately rounds (or
+	// overflows) each of them before the division. Instead the division is
+	// carried out on the integers, scaled so that the quotient has about
+	// 2*maxDigits digits, and only that quotient is rounded.
+	shift := (denom.BitLen()-num.BitLen())*30103/100000 + 2*maxDigits
+
+	if shift > 0 {
+		pow := new(big.Int).Exp(big.NewInt(10), big.NewInt(int64(shift)), nil)
+		num = pow.Mul(pow, num)
+	} else if shift < 0 {
+		pow := new(big.Int).Exp(big.NewInt(10), big.NewInt(int64(-shift)), nil)
+		denom = pow.Mul(pow, denom)
+	}
+
+	quo, rem := new(big.Int).QuoRem(num, denom, new(big.Int))
+
+	if rem.Sign() != 0 {
+		// a sticky digit far below the rounding position keeps the
+		// discarded remainder visible to FromInt
+		quo.Mul(quo, big.NewInt(10))
+		quo.Add(quo, big.NewInt(int64(num.Sign())))
+		shift++
+	}
+
+	return Ldexp(FromInt(quo), -shift)
 }
 
 // FromUint32 converts i into a Decimal.
